@@ -456,3 +456,55 @@ func TestC13_RunsOrStops(t *testing.T) {
 		}, "runs_or_stops", "outcome_"+outcome, faultLabel(fault, flavour))
 	})
 }
+
+// TestC13_LongPeriods: refresh periods of hours and days cannot be waited for,
+// but the lower bound of the statement can still be refuted: "each list starts
+// no earlier than about one period after the previous result was consumed".
+// With such a period exactly one List call may happen within the few hundred
+// milliseconds the case lasts - a period computation that overflows or
+// truncates for large values relists at once.  Shutdown must be prompt.
+func TestC13_LongPeriods(t *testing.T) {
+	periods := []time.Duration{time.Minute, time.Hour, 2*time.Hour + 19*time.Minute, 2*time.Hour + 30*time.Minute, 3 * time.Hour, 4 * time.Hour, 6 * time.Hour,
+		24 * time.Hour, 48 * time.Hour, 30 * 24 * time.Hour, 365 * 24 * time.Hour, time.Duration(1<<62 - 1), time.Duration(1<<63-1) / 3}
+	rapid.Check(t, func(t *rapid.T) {
+		P := rapid.SampledFrom(periods).Draw(t, "period")
+		if rapid.Bool().Draw(t, "jitter") {
+			P += time.Duration(rapid.Int64Range(0, int64(time.Hour)).Draw(t, "extra"))
+			if P < 0 {
+				P = time.Duration(1<<63 - 1)
+			}
+		}
+		observe := time.Duration(rapid.IntRange(60, 250).Draw(t, "observeMs")) * time.Millisecond
+		a := newFakeAPI()
+		a.put("a", "p", nil)
+		ctx, cancel := context.WithCancel(context.Background())
+		defer cancel()
+		b := kcache.NewBuilder().Context(ctx).Log(newPlog(false, 1)).Client(a)
+		b.Lister().RefreshPeriod(P)
+		root, err := b.Create()
+		if err != nil {
+			t.Fatalf("create: %v", err)
+		}
+		defer func() { go root.Close() }()
+		if !waitWedge(root.Ready()) {
+			t.Fatalf("C13 violation: WEDGE: the controller never became ready (period %v)", P)
+		}
+		time.Sleep(observe)
+		if n := a.listCount(); n != 1 {
+			t.Fatalf("C13 violation: refresh period %v: %d List calls were made within %v of start-up; each list must start no earlier than about one period after the previous result was consumed", P, n, observe)
+		}
+		t0 := time.Now()
+		if !closeBounded(root) {
+			t.Fatalf("C13 violation: WEDGE: Close() did not return (period %v)", P)
+		}
+		if d := time.Since(t0); d > 2*time.Second {
+			t.Fatalf("C13 violation: Close() took %v with refresh period %v", d, P)
+		}
+		if n, dump := waitNoLibGoroutines(wedgeBound); n != 0 {
+			t.Fatalf("C13 violation: %d library goroutines left after Close:\n%s", n, dump)
+		}
+		statCase("C13", hashString(fmt.Sprintf("long %v %v", P, observe)), P > time.Hour, func() interface{} {
+			return map[string]interface{}{"mode": "long refresh period: no second list at once", "period": P.String(), "observed_for": observe.String()}
+		}, "long_period")
+	})
+}
